@@ -564,6 +564,82 @@ theorem children_index_error (len : Int) (ops : List Op) (aid gid : Nat) (r : Re
   | none => simp [throw, throwThe, MonadExceptOf.throw]
   | some i => simp [pure, Except.pure]
 
+/-! ### 8c  histories in which genes are re-annotated at any time (`runLoose`)
+
+An annotation rewrite of a gene that collections already list (refused by `run`, see `reannotation_model_limit`)
+touches no relation other than — later, through re-evaluation — the definition sets.  Everything else the strict
+history theorems say holds over `runLoose` histories as well. -/
+
+/-- the rewrite itself changes no relation at all: gene lists, section lists, definition sets, back links, caches and
+    the record's collection lists are untouched; only the gene's core products change -/
+theorem reannotation_touches_no_relation (r : Rec) (gid : Nat) (cs : List String) :
+    (setCoresAny r gid cs).members = r.members ∧ (setCoresAny r gid cs).sections = r.sections ∧
+    (setCoresAny r gid cs).defs = r.defs ∧ (setCoresAny r gid cs).regionOf = r.regionOf ∧
+    (setCoresAny r gid cs).regions = r.regions ∧ (setCoresAny r gid cs).protos = r.protos ∧
+    (setCoresAny r gid cs).cands = r.cands ∧ (setCoresAny r gid cs).subs = r.subs ∧
+    (setCoresAny r gid cs).log = r.log ∧ (setCoresAny r gid cs).genes = r.genes.map (recore gid cs) :=
+  ⟨rfl, rfl, rfl, rfl, rfl, rfl, rfl, rfl, rfl, rfl⟩
+
+/-- `genes_stay_sorted` / `lists_are_live` over `runLoose` histories -/
+theorem loose_genes_and_lists (len : Int) (ops : List Op) (r : Rec) (hok : ∀ op ∈ ops, OpOK op)
+    (hrun : runLoose len ops = .ok r) :
+    Sorted r.genes ∧ GenesOK r.genes ∧ (∀ g, g ∈ r.genes ↔ g ∈ (liveAfter ops).genes) ∧
+    r.genes.Pairwise (fun a b => a.id ≠ b.id) ∧
+    r.regions = (liveAfter ops).regions ∧ r.protos = (liveAfter ops).protos ∧
+    r.cands = (liveAfter ops).cands ∧ r.subs = (liveAfter ops).subs := by
+  have inv := (runLoose_inv hok hrun).core
+  exact ⟨inv.sorted, inv.ok, inv.genesLive, inv.ids, inv.regionsEq, inv.protosEq, inv.candsEq, inv.subsEq⟩
+
+/-- `area_children_exact` over `runLoose` histories: every collection in the record and every child of one lists
+    exactly the genes its location contains, however often and whenever genes were re-annotated -/
+theorem loose_area_children_exact (len : Int) (ops : List Op) (r : Rec) (hok : HistoryOK ops)
+    (hrun : runLoose len ops = .ok r) (a : AreaT) (ha : a ∈ (liveAfter ops).areas) (d : AreaT) (hd : d ∈ nodes a)
+    (gid : Nat) : gid ∈ r.children d.id ↔ gid ∈ specChildren r.genes d :=
+  children_exact_of_inv (len := len) (runLoose_inv hok.opOK hrun).core hok a ha d hd gid
+
+/-- `cds_region_unique` over `runLoose` histories -/
+theorem loose_cds_region_unique (len : Int) (ops : List Op) (r : Rec) (hok : ∀ op ∈ ops, OpOK op)
+    (hrun : runLoose len ops = .ok r) (g : Gene) (hg : g ∈ r.genes) :
+    (∀ a ∈ r.regions, specContained g.loc a.loc = true → r.regionOfGene g.id = some a.id) ∧
+    ((∀ a ∈ r.regions, specContained g.loc a.loc = false) → r.regionOfGene g.id = none) ∧
+    (∀ a ∈ r.regions, ∀ b ∈ r.regions, specContained g.loc a.loc = true → specContained g.loc b.loc = true → a = b) := by
+  have inv := (runLoose_inv hok hrun).core
+  have hle := gene_le (inv.ok g hg)
+  obtain ⟨h1, h2⟩ := inv.regionPtr g hg
+  refine ⟨?_, ?_, ?_⟩
+  · intro a ha hc; exact h1 a ha (by rw [containedBy_eq_spec hle]; exact hc)
+  · intro hn; exact h2 (fun a ha => by rw [containedBy_eq_spec hle]; exact hn a ha)
+  · intro a ha b hb hca hcb
+    exact containing_unique inv.disjoint inv.regionQ (inv.ok g hg) ha hb (by rw [containedBy_eq_spec hle]; exact hca)
+      (by rw [containedBy_eq_spec hle]; exact hcb)
+
+/-- `region_sections_partition` and `sections_cover_children` over `runLoose` histories -/
+theorem loose_sections (len : Int) (ops : List Op) (r : Rec) (hok : HistoryOK ops) (hrun : runLoose len ops = .ok r) :
+    (∀ a ∈ r.regions, ∀ s gid, gid ∈ r.section a.id s ↔
+      ∃ g ∈ r.genes, g.id = gid ∧ specContained g.loc a.loc = true ∧ specSection a.loc g.loc = s) ∧
+    (∀ aid gid, gid ∈ r.children aid ↔ ∃ s, gid ∈ r.section aid s) := by
+  have inv := (runLoose_inv hok.opOK hrun).core
+  refine ⟨fun a ha s gid => region_sections_exact_of_inv (len := len) inv hok a ha s gid, fun aid gid => ?_⟩
+  rw [mem_children, inv.cover]
+  simp only [mem_section]
+
+/-- the caches stay right over `runLoose` histories: whatever is marked clean holds the live value (so
+    `get_cds_features` and `cds_children` return live values after any such history) -/
+theorem loose_caches_fresh (len : Int) (ops : List Op) (r : Rec) (hok : ∀ op ∈ ops, OpOK op)
+    (hrun : runLoose len ops = .ok r) (aid : Nat) :
+    (peekCds r).log = r.log ++ [[r.genes.map (·.id)]] ∧
+    (peekArea r aid).log = r.log ++ [[r.children aid, r.section aid .pre, r.section aid .cross, r.section aid .post]] := by
+  have c := (runLoose_inv hok hrun).cache
+  exact ⟨(InvCore.peekCds (S := False) (L := liveAfter ops) (ever := opsAreas ops) c).2.2, (peekArea_spec c aid).2.2⟩
+
+/-- a definition set never holds a gene the protocluster does not list — also over `runLoose` histories -/
+theorem loose_definition_is_listed (len : Int) (ops : List Op) (r : Rec) (hok : ∀ op ∈ ops, OpOK op)
+    (hrun : runLoose len ops = .ok r) (aid gid : Nat) (h : gid ∈ r.definition aid) : gid ∈ r.children aid := by
+  have inv := (runLoose_inv hok hrun).core
+  rw [mem_definition] at h
+  rw [mem_children]
+  exact inv.defsSub _ h
+
 /-! ### 9  build-order independence (histories of adding calls) -/
 
 /-- any two orderings of the same adding calls (genes before areas, after them, or interleaved in any way)
@@ -662,6 +738,15 @@ example : ((runLoose 400 [.cds { id := 0, loc := .simple ⟨100, 160, .fwd⟩ },
       .area (.mk 300 .cand (.simple ⟨50, 350, .fwd⟩) (.simple ⟨50, 350, .fwd⟩) ""
         [.mk 100 .proto (.simple ⟨50, 350, .fwd⟩) (.simple ⟨90, 300, .fwd⟩) "a" []])])
     = (some [0], [(100, 0)]) := by
+  decide +kernel
+
+/-- a `runLoose` history the strict `run` refuses: the gene is re-annotated after the subregion listed it; the
+    subregion's list and sections are as the loose theorems say -/
+example : ((run 1000 [.cds (g 0 910 920), .area (.mk 200 .sub (.simple ⟨900, 1000, .fwd⟩) (.simple ⟨0, 1, .fwd⟩) "" []),
+      .setCores 0 ["x"]]).toOption.isNone,
+    (runLoose 1000 [.cds (g 0 910 920), .area (.mk 200 .sub (.simple ⟨900, 1000, .fwd⟩) (.simple ⟨0, 1, .fwd⟩) "" []),
+      .setCores 0 ["x"]]).toOption.map (fun r => (r.children 200, r.section 200 .post, r.genes.map (·.cores))))
+    = (true, some ([0], [0], [["x"]])) := by
   decide +kernel
 
 end ASV.C08
